@@ -32,7 +32,8 @@ def calls_of(c: dict) -> list[dict]:
 def features(c: dict, alias: bool) -> dict:
     calls = calls_of(c)
     used = {cl["fn"] for cl in calls}
-    clash = alias and (({"inc", "dbl"} <= used) or ({"add", "sub"} <= used))
+    clash = (alias == 1 and (({"inc", "dbl"} <= used) or ({"add", "sub"} <= used))) \
+        or (alias == 2 and len({"inc", "dbl", "neg"} & used) >= 2)
     return {"repeated_argument": any(len(set(cl["args"])) < len(cl["args"]) for cl in calls),
             "same_name_functions": bool(clash),
             "untranslatable": sorted(used & cg.UNTRANSLATABLE)}
@@ -43,8 +44,9 @@ def roundtrip(scn: dict) -> dict:
 
     c = scn["c"]
     rnd = random.Random(f"{scn['seed']}/{scn['idx']}")
-    alias = scn["idx"] % 3 == 0
-    modelkit.FN_OVERRIDE = dict(fnlib_alias.ALIAS) if alias else {}
+    # 1: same __name__, other module; 2: same module and same qualified name (two closures of one factory); 0: none
+    alias = (1, 2, 0)[scn["idx"] % 3]
+    modelkit.FN_OVERRIDE = dict(fnlib_alias.ALIAS) if alias == 1 else dict(fnlib_alias.TWIN) if alias == 2 else {}
     try:
         m, order = build_model(c, rnd)
     finally:
